@@ -574,3 +574,82 @@ def _(E, p):
     m = ["lebedev", "spherical", "maxdet", "ahrens_beylkin"][p % 4]
     sizes = E.arr("sizes", np.array([6, 14, 14, 30]), dtype=int) if p % 2 else E.lst("sizes_list", [6, 14, 14, 30])
     return [np.asarray(AngularGrid.convert_angular_sizes_to_degrees(sizes, m), dtype=float)]
+
+
+# ---- saving, cube files, defaults ---------------------------------------------------------------------------
+
+
+@entry("save_to_buffer", 1.0)
+def _(E, p):
+    """Grid.save / LocalGrid.save / AtomGrid.save / MolGrid.save into an in-memory file: the arrays handed to the
+    constructors (and the grids' own arrays) must survive serialisation untouched."""
+    import io
+
+    from grid.atomgrid import AtomGrid
+    from grid.basegrid import Grid
+    from grid.becke import BeckeWeights
+    from grid.molgrid import MolGrid
+
+    n = 15
+    g = Grid(E.arr("points", _pts3(n, 120)), E.arr("weights", _wts(n, 121)))
+    out = []
+    buf = io.BytesIO()
+    g.save(buf)
+    lg = g.get_localgrid(E.arr("center", np.zeros(3)), 1.0)
+    lg.save(io.BytesIO())
+    with np.load(io.BytesIO(buf.getvalue())) as z:
+        out += [z["points"], z["weights"]]
+    ag = AtomGrid(_rgrid(4), degrees=E.lst("degrees", [3, 5, 5, 3]), center=E.arr("acenter", np.array([0.1, 0.2, 0.3])))
+    b2 = io.BytesIO()
+    ag.save(b2)
+    with np.load(io.BytesIO(b2.getvalue())) as z:
+        out += [z["points"], z["center"]]
+    if p % 2:
+        mg = MolGrid(E.arr("atnums", np.array([1]), dtype=int), E.lst("atgrids", [ag]), BeckeWeights(), store=True)
+        mg.save(io.BytesIO())
+        out.append(mg.weights)
+    return out
+
+
+@entry("cube_roundtrip", 0.7)
+def _(E, p):
+    import os
+    import shutil
+    import tempfile
+
+    from grid.cubic import UniformGrid
+
+    g = UniformGrid(E.arr("origin", np.array([-1.0, -1.0, -1.0])), E.arr("axes", np.eye(3) * 0.5), E.arr("shape", np.array([4, 4, 5]), dtype=int))
+    data = E.arr("data", np.exp(-np.sum(g.points**2, axis=1)))
+    atcoords = E.arr("atcoords", np.array([[0.0, 0.0, 0.0], [0.0, 0.0, 0.9]]))
+    atnums = E.arr("atnums", np.array([8, 1]), dtype=int)
+    d = tempfile.mkdtemp(prefix="cube.", dir="/var/tmp")
+    try:
+        fn = os.path.join(d, "t.cube")
+        g.generate_cube(fn, data, atcoords, atnums, pseudo_numbers=E.arr("pseudo", np.array([8.0, 1.0])) if p % 2 else None)
+        g2, cd = UniformGrid.from_cube(fn, return_data=True)
+    finally:
+        shutil.rmtree(d, ignore_errors=True)
+    return [g2, cd["data"], cd["atcoords"], np.asarray(cd["atnums"], dtype=float)]
+
+
+@entry("defaults_and_rules", 1.0)
+def _(E, p):
+    """Constructors that fall back on library defaults (default radial grids, default degrees) and parameterised 1-D rules."""
+    from grid import onedgrid as og
+    from grid.atomgrid import AtomGrid
+    from grid.molgrid import MolGrid
+
+    atnums, atcoords = _two_atoms(E)
+    out = []
+    if p % 3 == 0:
+        out.append(AtomGrid.from_preset(8, "coarse", center=E.arr("center", np.array([0.0, 0.0, 0.1]))))
+    elif p % 3 == 1:
+        out.append(MolGrid.from_preset(atnums, atcoords, E.lst("preset_list", ["coarse", "coarse"]), store=True))
+    else:
+        out.append(AtomGrid(_rgrid(3), center=E.arr("center", np.array([0.0, 0.0, 0.1]))))
+    rules = [og.GaussLaguerre(6, 0.5), og.TanhSinh(7, 0.2), og.TrefethenCC(6, 5), og.TrefethenStripGC2(6, 1.2), og.ExpSinh(7, 0.3), og.SingleTanh(7, 0.2), og.ClenshawCurtis(6), og.FejerFirst(6), og.Simpson(7)]
+    r = rules[p % len(rules)]
+    f = E.arr("f", np.cos(r.points))
+    out += [r, r.integrate(f)]
+    return out
